@@ -234,18 +234,15 @@ def _jsonable(o):
     return d
 
 
-REGEX_CORPUS = [
-    # DESIGN §6 #8 / witness of C19_regex_findings (ZeroBased branch): two lines, both edited, one finding on line 2
-    ("corpus:offbyone", "literal_x", r"^", "x", "a\nb\n", [([(2, 1, 2, 2)], 7)], [([(2, 1, 2, 2)], 7)]),
-    ("corpus:finding_line1", "literal", r"foo", "bar", "foo\nfoo\nzz\n", [([(1, 1, 1, 4)], 3), ([(2, 1, 3, 1)], 4)], [([(1, 1, 1, 4)], 3), ([(2, 1, 3, 1)], 4)]),
-    ("corpus:sast_unfixed", "literal", r"foo", "bar", "zz\nfoo\nzz\n", [([(1, 1, 1, 2)], 5), ([(2, 1, 2, 2)], 6)], [([(1, 1, 1, 2)], 5), ([(2, 1, 2, 2)], 6)]),
-    ("corpus:newline_eaten", "anchored_end", r"\s+$", "", "a \nb\n\nc", [([(1, 1, 2, 2)], 1)], [([(1, 1, 2, 2)], 1)]),
-    ("corpus:crlf", "literal", r"foo", "bar", "foo\r\nzz\r\nfoo", [], []),
-    ("corpus:empty_file", "literal", r"foo", "bar", "", [([(1, 1, 1, 1)], 1)], [([(1, 1, 1, 1)], 1)]),
-    ("corpus:sast_no_results", "literal", r"foo", "bar", "foo\n", [([(1, 1, 1, 1)], 1)], []),
-    ("corpus:sast_results_none", "literal", r"foo", "bar", "foo\n", [([(1, 1, 1, 1)], 1)], None),
-    ("corpus:formfeed_inside", "literal", r"foo", "bar", "foo\x0cfoo\nzz foo", [([(2, 1, 2, 1)], 2)], [([(2, 1, 2, 1)], 2)]),
-]
+def _spec(j):
+    return None if j is None else [([tuple(l) for l in locs], fid) for locs, fid in j]
+
+
+def load_regex_corpus():
+    """corpus/C19/regex.json: hand-picked regression inputs and the witness of the refuted (pinned) index form"""
+    f = core.VERIF / "corpus" / "C19" / "regex.json"
+    return [(e["name"], e["pname"], e["pattern"], e["repl"], e["text"], _spec(e["fc_results"]), _spec(e["results"]))
+            for e in json.loads(f.read_text())] if f.exists() else []
 
 
 def run_regex(ctx):
@@ -254,7 +251,8 @@ def run_regex(ctx):
     if getattr(ctx, "deep", False):
         n *= 3
     plan = []
-    for name, pname, pat, repl, text, fcs, rs in REGEX_CORPUS:
+    for name, pname, pat, repl, text, fcs, rs in load_regex_corpus():
+        name = 'corpus:' + name
         for cls in ("RegexTransformerPipeline", "SastRegexTransformerPipeline"):
             plan.append((name, cls, pname, pat, repl, text, fcs, rs))
     for i in range(n):
@@ -354,12 +352,9 @@ def replay(ctx, body):
         print("raised:", exc, "observed:", o)
         return 0
     pats = {p[0]: p for p in PATTERNS}
-    pats.update({c[1]: (c[1], c[2], c[3]) for c in REGEX_CORPUS})
+    pats.update({c[1]: (c[1], c[2], c[3]) for c in load_regex_corpus()})
     _, pat, repl = pats[body["pattern"]]
-    fcs = body["fc_results"] and [([tuple(l) for l in locs], fid) for locs, fid in body["fc_results"]]
-    rs = body["results"] and [([tuple(l) for l in locs], fid) for locs, fid in body["results"]]
-    if body["results"] == []:
-        rs = []
+    fcs, rs = _spec(body["fc_results"]), _spec(body["results"])
     for dry in (False, True):
         o, exc = run_regex_once(ctx, body["class"], pat, repl, body["text"].encode(), fcs, rs, dry, "replay")
         print(f"dry_run={dry}: raised={exc} observed now: {_jsonable(o)}")
